@@ -138,8 +138,12 @@ def run(rep, pdb, tier):
         rule_not_continued(rep, sv, name)
         # ---- loop-carried state is refreshed on every iteration
         rule_carried(rep, sv, name)
+        # ---- the iteration map is the published method's
+        rule_iteration_map(rep, sv, name)
         # ---- breakdown-free: the scalars the recurrences divide by / give up on must be definite on the claimed class
         rule_breakdown_free(rep, sv, name)
+    rep.floor("iteration-map/", 4)
+    rep.floor("failure-exits/", 4)
     rep.floor("breakdown-exact/", 4)
     rep.floor("breakdown-free/", 4)
     rep.floor("carried/", 4)
@@ -372,6 +376,63 @@ def rule_breakdown_free(rep, sv, name):
         rep.bad("breakdown-free/%s/left-norm#%d" % (name, k_), rule_n, c, "%s is the norm of a vector built from A^T images" % show(ctx.term(c), ctx))
     rep.add("breakdown-free/%s" % name, "the inner products and norms of the loop were classified (definite / indefinite)", bool(dots), sv.main,
             "inner products in the loop: %d (indefinite: %d), norms of left Lanczos vectors: %d" % (len(dots), len(bad_d), len(bad_n)))
+
+
+_REF = {}
+
+
+def reference_solver(name):
+    """The ref_* twin of solve_* in the frozen reference PDB (reference/krylov_ref.rs, transcribed from the Templates book)."""
+    import json
+    import os
+    from .pdb import Pdb, VERIF
+    if "pdb" not in _REF:
+        _REF["pdb"] = Pdb(json.load(open(os.path.join(VERIF, "reference", "krylov_ref.pdb.json"))))
+    key = name.replace("solve_", "ref_")
+    if key not in _REF:
+        _REF[key] = Solver(_REF["pdb"], key)
+    return _REF[key]
+
+
+def rule_iteration_map(rep, sv, name):
+    from .c08 import Unclassified
+    from . import krylov_fp
+    fn = sv.fn
+    where = "%s:%d" % (fn["file"], fn["span"][0])
+    rule = ("the map `state at the top of an iteration -> state at the top of the next` (start-up values, first iteration, general iteration) that drives the iterate x is, "
+            "as a rational function of the inner products and norms it evaluates, the map of the published method (reference/krylov_ref.rs, transcribed from "
+            "Barrett et al., Templates, Fig. 2.5/2.7/2.10/2.8): compared by colour refinement over the loop-carried variables, %d levels deep, modulo field identities, "
+            "names, temporaries and statement order" % krylov_fp.ROUNDS)
+    ref = reference_solver(name)
+    if not ref.ok or ref.main is None:
+        rep.missing("iteration-map/%s" % name, rule, "reference solver %s not found in reference/krylov_ref.pdb.json" % name, where)
+        return
+    try:
+        ok, det = krylov_fp.compare(sv, ref, X_)
+    except Unclassified as u:
+        rep.missing("iteration-map/%s" % name, rule, "unclassified: %s" % u, where)
+        return
+    rep.add("iteration-map/%s" % name, rule, ok, sv.main, det)
+    # ---- failure exits: the method gives up only where the published method does
+    rule_f = ("every `return Err(..)` of the loop that is guarded by an exact-zero test of a recurrence scalar tests a scalar, at a state of the iterate, at which the published "
+              "method also stops (`if rho(i) = 0 or xi(i) = 0 method fails` ...): a breakdown test moved ahead of the update of x that completes the step, or put on another "
+              "scalar, gives up on systems the method solves (e.g. the lucky breakdown of order-1 and scaled-identity systems)")
+    if not ok:
+        rep.add("failure-exits/%s" % name, rule_f, True, sv.main, "not compared: the iteration map already deviates from the reference (reported above), so the states have no common names")
+        return
+    fa, fb = krylov_fp.fingerprint(sv), krylov_fp.fingerprint(ref)
+    ref_set = set((s_, xs) for _n, s_, xs in krylov_fp.failure_exits(ref, fb, X_))
+    mine = krylov_fp.failure_exits(sv, fa, X_)
+    bad = [n for n, s_, xs in mine if (s_, xs) not in ref_set]
+    seen, k_ = set(), 0
+    for n in sorted(bad, key=_pos):
+        if id(n) in seen:
+            continue
+        seen.add(id(n))
+        k_ += 1
+        rep.bad("failure-exits/%s#%d" % (name, k_), rule_f, n, "this exit tests a scalar / at a state of x at which the reference has no failure exit")
+    rep.add("failure-exits/%s" % name, rule_f, True, sv.main, "exact-zero failure exits in the loop: %d (first and general iteration), in the reference: %d; not in the reference: %d" % (
+        len(mine), len(ref_set), len(seen)))
 
 
 def _has_tag(k, tag):
